@@ -24,6 +24,9 @@ CP = "hta.analyzers.critical_path_analysis"
 
 
 def run(db, chk) -> None:
+    from ..specs.discipline import check_stateless
+    check_stateless(db, chk, "C08.R-stateless", ['hta.analyzers.critical_path_analysis'])      # the result is a function of the arguments: no state kept between calls, caller's Trace untouched
+    chk.floor("C08.R-stateless", 4)
     m = db.mod(CP)
     _nodes(db, chk, m)
     _weights(db, chk, m)
